@@ -16,7 +16,7 @@ from .c07 import blocks_of
 ID = "C06"
 GUARD_KERNELS = True
 NAMES = ["collapse", "bandpass", "read_chan", "dedisperse", "compute_stats", "compute_stats_basic"]
-SHRINK_LISTS = ("ops", "faults")
+SHRINK_LISTS = ("ops", "faults", "pre", ("files", "nsamps"))
 SHRINK_MIN = {"nchans": 1, "nbits": 1, "gulp": 1}
 
 
@@ -70,12 +70,45 @@ def generate(rng, tier) -> dict:
     ops = []
     for _ in range(2):
         ops.append({"gulp": max(1, rng.choice([1, 2, 3, rng.randint(1, max(1, ns)), ns, ns + rng.randint(1, 4), max(1, ns // 2), max(1, ns // 3)]))})
+    if rng.random() < 0.35 and N >= 2:
+        # the second call asks for ANOTHER window on the same reader (same length shifted, or any other)
+        if rng.random() < 0.6 and ns < N:
+            st2 = rng.choice([s for s in range(0, N - ns + 1) if s != start] or [start])
+            ops[1].update({"start": st2, "nsamps": ns})
+        else:
+            st2 = rng.randint(0, N - 1)
+            ops[1].update({"start": st2, "nsamps": rng.randint(1, N - st2)})
+    pre = gen_pre(rng, N) if rng.random() < 0.3 else []
     faults = []
     if rng.random() < 0.25:
         for _ in range(rng.choice([1, 1, 2])):
             faults.append({"kind": rng.choice(["R1", "R2"]), "op": rng.randrange(len(ops)), "call": rng.choice([0, 1, 1, 2, 3, 4]),
                            "arg": rng.choice([1, 3, rng.randint(1, 64)])})
-    return {"files": spec, "name": name, "params": params, "start": start, "nsamps": nsamps, "ops": ops, "faults": faults}
+    return {"files": spec, "name": name, "params": params, "start": start, "nsamps": nsamps, "pre": pre, "ops": ops, "faults": faults}
+
+
+PRE_OPS = ["compute_stats", "compute_stats_basic", "collapse", "bandpass", "read_block"]
+
+
+def gen_pre(rng, N):
+    """Earlier calls on the SAME reader object (a realistic session); they must not influence later results."""
+    out = []
+    for _ in range(rng.choice([1, 1, 2])):
+        st = rng.randint(0, N - 1)
+        out.append({"op": rng.choice(PRE_OPS), "start": st, "nsamps": rng.randint(1, N - st), "gulp": rng.randint(1, N + 2)})
+    return out
+
+
+def run_pre(reader, pre, ctx) -> None:
+    for o in pre:
+        try:
+            if o["op"] == "read_block":
+                reader.read_block(o["start"], o["nsamps"])
+            else:
+                getattr(reader, o["op"])(gulp=o["gulp"], start=o["start"], nsamps=o["nsamps"], quiet=True)
+        except Exception as e:  # noqa: BLE001 - the pre-history is context, not the call under test
+            ctx.observations["pre-history-raised:" + type(e).__name__] += 1
+        ctx.probe("pre-history-call")
 
 
 def fixup(sc):
@@ -91,6 +124,13 @@ def fixup(sc):
     if sc["nsamps"] is not None:
         sc["nsamps"] = max(1, min(sc["nsamps"], N - sc["start"]))
     for o in sc["ops"]:
+        o["gulp"] = max(1, o["gulp"])
+        if "start" in o:
+            o["start"] = max(0, min(o["start"], N - 1))
+            o["nsamps"] = max(1, min(o["nsamps"], N - o["start"]))
+    for o in sc.get("pre", []):
+        o["start"] = max(0, min(o["start"], N - 1))
+        o["nsamps"] = max(1, min(o["nsamps"], N - o["start"]))
         o["gulp"] = max(1, o["gulp"])
     if sc["name"] == "read_chan":
         sc["params"]["ichan"] = max(0, min(sc["params"]["ichan"], f["nchans"] - 1))
@@ -139,49 +179,69 @@ def call(name, reader, params, gulp, start, nsamps):
     raise AssertionError(name)
 
 
+def definition(name, X, params, delays, nchans):
+    """In-memory definition on the selected samples X; returns (want, maxdelay)."""
+    ns = X.shape[0]
+    if name == "collapse":
+        return X.astype(np.float64).sum(axis=1).astype(np.float32), 0
+    if name == "bandpass":
+        return X.astype(np.float64).sum(axis=0).astype(np.float32) / np.float32(ns), 0
+    if name == "read_chan":
+        return X[:, params["ichan"]].astype(np.float32), 0
+    if name == "dedisperse":
+        md = T.dedisp_domain(delays, ns)
+        no = ns - md
+        acc = np.zeros(no, dtype=np.float64)
+        for c in range(nchans):
+            acc += X[delays[c] : delays[c] + no, c].astype(np.float64)
+        return acc.astype(np.float32), md
+    return two_pass(X), 0
+
+
 def execute(sc, ctx) -> None:
     from sigpyproc.readers import FilReader
+
+    from sim.core import Rejected
 
     spec, name, params = sc["files"], sc["name"], sc["params"]
     fs = filgen.write_fileset(ctx.root, spec)
     N, nbits, nchans = fs.nsamples, spec["nbits"], spec["nchans"]
-    start, nsamps = sc["start"], sc["nsamps"]
-    ns = N - start if nsamps is None else nsamps
-    X = fs.samples[start : start + ns]
-    eof = "toEOF" if start + ns == N else "beforeEOF"
     if nbits < 8:
         ctx.probe("sub-byte")
-    if eof == "beforeEOF":
-        ctx.probe("sub-range-before-EOF")
-    if start > 0:
-        ctx.probe("start>0")
-    ctx.sig += [name, f"nbits{nbits}", eof, "multi" if len(spec["nsamps"]) > 1 else "single"]
+    ctx.sig += [name, f"nbits{nbits}", "multi" if len(spec["nsamps"]) > 1 else "single"]
     bounds = list(np.cumsum(spec["nsamps"]))[:-1]
 
     with SimDisk(ctx, sc["faults"]) as sim:
         reader = FilReader(fs.paths)
-        md = 0
-        if name == "collapse":
-            want = X.astype(np.float64).sum(axis=1).astype(np.float32)
-        elif name == "bandpass":
-            want = X.astype(np.float64).sum(axis=0).astype(np.float32) / np.float32(ns)
-        elif name == "read_chan":
-            want = X[:, params["ichan"]].astype(np.float32)
-        elif name == "dedisperse":
+        delays = None
+        if name == "dedisperse":
             delays = np.atleast_1d(np.asarray(reader.header.get_dmdelays(params["dm"])))
-            md = T.dedisp_domain(delays, ns)
-            no = ns - md
-            acc = np.zeros(no, dtype=np.float64)
-            for c in range(nchans):
-                acc += X[delays[c] : delays[c] + no, c].astype(np.float64)
-            want = acc.astype(np.float32)
-            if md > 0:
-                ctx.probe("dedisperse:maxdelay>0")
-        else:
-            want = two_pass(X)
+        if sc.get("pre"):
+            sim.begin_op(-1, budget=100000)
+            run_pre(reader, sc["pre"], ctx)
         results = []
+        windows = []
         for i, op in enumerate(sc["ops"]):
             gulp = op["gulp"]
+            start = op.get("start", sc["start"])
+            nsamps = op["nsamps"] if "start" in op else sc["nsamps"]
+            ns = N - start if nsamps is None else nsamps
+            X = fs.samples[start : start + ns]
+            eof = "toEOF" if start + ns == N else "beforeEOF"
+            if "start" in op:
+                ctx.probe("second-window-on-same-reader")
+            if eof == "beforeEOF":
+                ctx.probe("sub-range-before-EOF")
+            if start > 0:
+                ctx.probe("start>0")
+            try:
+                want, md = definition(name, X, params, delays, nchans)
+            except Rejected:
+                if i == 0:
+                    raise
+                continue  # the shifted window is shorter than the dispersion sweep: not in the domain
+            if name == "dedisperse" and md > 0:
+                ctx.probe("dedisperse:maxdelay>0")
             g_eff, skip = gulp, 0
             if name == "dedisperse":
                 g_eff, skip = max(2 * md, gulp), md
@@ -200,7 +260,7 @@ def execute(sc, ctx) -> None:
             sim.begin_op(i, budget=16 * (nblk + 2) * (len(spec["nsamps"]) + 2) + 64)
             fired0 = sum(ctx.faults.values())
             info = {"api": name, "params": params, "gulp": gulp, "start": start, "nsamps": ns, "N": N, "nbits": nbits,
-                    "nchans": nchans, "eof": eof, "nblocks": nblk, "maxdelay": md, "op_index": i}
+                    "nchans": nchans, "eof": eof, "nblocks": nblk, "maxdelay": md, "op_index": i, "pre": sc.get("pre", [])}
             raised = None
             got = None
             try:
@@ -228,7 +288,7 @@ def execute(sc, ctx) -> None:
                 continue
             if isinstance(want, dict):
                 compare_stats(got, want, name, mk)
-                ctx.log("call", i, name, gulp, [round(float(v), 3) for v in got["mean"]])
+                ctx.log("call", i, name, gulp, start, ns, [round(float(v), 3) for v in got["mean"]])
             else:
                 if got.shape != want.shape:
                     raise mk("length", f"result has {got.shape[0]} samples, definition has {want.shape[0]}")
@@ -239,14 +299,15 @@ def execute(sc, ctx) -> None:
                 if bad.any():
                     j = int(np.argmax(bad))
                     raise mk("wrong-values", f"{int(bad.sum())} of {bad.size} differ, first at {j}: got {got[j]!r} want {want[j]!r}")
-                ctx.log("call", i, name, gulp, zlib.crc32(np.ascontiguousarray(got).tobytes()))
+                ctx.log("call", i, name, gulp, start, ns, zlib.crc32(np.ascontiguousarray(got).tobytes()))
             ctx.probe("compared-result")
             ctx.probe(f"ok:{name}")
             results.append(got)
-        if len(results) == 2:
+            windows.append((start, ns))
+        if len(results) == 2 and windows[0] == windows[1]:
             ctx.probe("two-gulps-compared")
-            if not isinstance(want, dict) and name != "bandpass" and not filgen.same_bits(results[0], results[1]):
-                raise Violation(f"C06/{name}/gulp-dependence/{eof}", "results differ bitwise between two gulps", {"api": name})
+            if not isinstance(results[0], dict) and name != "bandpass" and not filgen.same_bits(results[0], results[1]):
+                raise Violation(f"C06/{name}/gulp-dependence", "results differ bitwise between two gulps", {"api": name})
         reader._file.close()
 
 
